@@ -270,14 +270,15 @@ def _std_set(smarts):
 
 
 def _its_key_graph(g):
-    """ITS graph reduced to what the chemistry is: typesGH without the neighbour lists' order, bond orders before/after"""
+    """ITS graph reduced to what the reaction is: element/aromaticity/hydrogens/charge before and after, bond orders before
+    and after (the derived standard_order and the neighbour lists are representation, not chemistry)"""
     import networkx as nx
     G = nx.Graph()
     for n, d in g.nodes(data=True):
         t = d["typesGH"]
         G.add_node(n, lab=repr((t[0][:4], t[1][:4])))
     for u, v, d in g.edges(data=True):
-        G.add_edge(u, v, lab=repr((tuple(d["order"]), d.get("standard_order", 0.0))))
+        G.add_edge(u, v, lab=repr(tuple(d["order"])))
     return G
 
 
@@ -340,13 +341,22 @@ def oracle(case):
 
     strategies = case["strategies"]
     obs = {}
-    try:
-        for i, v in enumerate(case["variants"]):
-            for st in strategies:
-                obs[(i, st)] = _observe(case, v, st)
-    except Exception:
-        return []          # the same construction error for every writing is not a result; a writing-dependent one shows below
     base = case["variants"][0]
+    try:
+        for st in strategies:
+            obs[(0, st)] = _observe(case, base, st)
+    except Exception:
+        return []          # the base writing cannot be run at all (unparsable input): not a result
+    for i, v in enumerate(case["variants"]):
+        if i == 0:
+            continue
+        for st in strategies:
+            try:
+                obs[(i, st)] = _observe(case, v, st)
+            except Exception as e:      # the base writing runs, this writing of the same inputs does not
+                fail("invariant-raises", "strategy %s: writing %s (%s ; %s) raises %s: %s while the base writing (%s ; %s) runs"
+                     % (st, v["v"], v["sub"], v["rsmi"], type(e).__name__, str(e)[:80], base["sub"], base["rsmi"]))
+                return fails
     hostb = obs[(0, strategies[0])]["rec"].host
     for i, v in enumerate(case["variants"]):
         if i == 0:
